@@ -4,7 +4,7 @@ A single-file base program is distributed over files / folders in several layout
 distribution is compiled by the real compiler and validated against the reference semantics of the single-file
 program for all hole values. Negative variants (a needed import removed / a name used without import) must be
 rejected."""
-import re, time
+import random, re, time
 from vlib import common
 from syltsem import ast as A, parse as SP
 from checks import tvrun
@@ -118,9 +118,10 @@ def import_path(frm, to, style):
     return rel or "exports"
 
 
-def build(layout_name, layout, style, drop_import=None, k=0):
-    prog = SP.strip_parens(SP.parse_program(BASE))
-    where = {"start": "main"}
+def build(layout_name, layout, style, drop_import=None, k=0, base=None, isolate=False):
+    prog = SP.strip_parens(SP.parse_program(base or BASE))
+    style_of = style if callable(style) else (lambda m, to: style)
+    where = {"start": "main", "secret": "main", "scratch": "main"}
     for m, gs in layout.items():
         for g in gs: where[g] = m
     mods = {"main": []}
@@ -136,6 +137,7 @@ def build(layout_name, layout, style, drop_import=None, k=0):
                 if where[d] != m: need.setdefault(where[d], set()).add(d)
         lines = []; q = {}
         for i, (to, names) in enumerate(sorted(need.items())):
+            style = style_of(m, to)
             path = import_path(m, to, style); mn = modname(to, m) if style != "root" else modname(to)
             if (m, to) == drop_import: 
                 for n in names: q[n] = (mn + "." + n) if style in ("use", "root") else n
@@ -155,8 +157,43 @@ def build(layout_name, layout, style, drop_import=None, k=0):
                 lines.append("from %s use (%s)" % (path, ", ".join("%s as %s" % (n, ren[n]) for n in sorted(names))))
                 for n in names: q[n] = ren[n]
         text = "\n".join(lines) + "\n\n" + A.to_text(requalify(stmts, q))
+        if isolate and m != "main":
+            # every module has private globals of the same names as the main file's and the other modules'
+            n = 11 * (1 + sorted(mods).index(m))
+            text += "\nsecret :: %d\nscratch := %d\nnote :: fn -> int do\n    scratch += 1\n    ret secret + scratch\nend\n" % (n, n)
         files["main.sy" if m == "main" else m + ".sy"] = text
     return files
+
+
+BASE_ISO = BASE.replace("start :: fn do\n", "secret :: 99\nscratch := 5\nstart :: fn do\n    scratch += 1\n    print(secret + scratch)\n")
+PATH_POOL = ["a", "b", "c", "lib", "d/e", "d/exports", "p/q/r", "p/exports", "p/q/exports", "zz/y"]
+
+
+def random_layouts(rnd, n):
+    """random distributions of the base program's globals over 1-4 files at random paths, a random import style per import edge,
+    and same-named private globals in every file (isolation)"""
+    out = []
+    tries = 0
+    while len(out) < n and tries < 20 * n:
+        tries += 1
+        k = rnd.randint(1, 4)
+        paths = rnd.sample(PATH_POOL, k)
+        if len({modname(p) for p in paths}) < k: continue          # two namespaces of one name in one importer is a (legitimate) error
+        if any(modname(p) in GLOBALS for p in paths): continue
+        layout = {p: [] for p in paths}
+        for g in GLOBALS: layout[rnd.choice(paths)].append(g)
+        layout = {p: gs for p, gs in layout.items() if gs}
+        edge_style = {}
+        def style(m, to, edge_style=edge_style, salt=rnd.random()):
+            if (m, to) not in edge_style: edge_style[(m, to)] = random.Random("%s|%s|%s" % (salt, m, to)).choice(STYLES)
+            return edge_style[(m, to)]
+        try: files = build("rand", layout, style, base=BASE_ISO, isolate=True)
+        except Exception: continue
+        main = files.pop("main.sy")
+        desc = "+".join(sorted(layout))
+        out.append({"name": "rand_layout_%d_%s" % (len(out), desc.replace("/", "_")), "role": "module-layout(random,%s)" % desc, "text": main, "files": files, "ref_text": BASE_ISO,
+                    "dom": {"a": (0, 3), "b": (0, 3)}, "expect": "accept", "styles": {"%s->%s" % e: v for e, v in edge_style.items()}})
+    return out
 
 
 def templates(tier):
@@ -180,6 +217,7 @@ def templates(tier):
     main = files.pop("main.sy").replace("c.K", "a.K")
     out.append({"name": "transitive_name_not_reexported", "role": "name-not-imported(transitive)", "text": main, "files": files, "ref_text": BASE, "dom": {"a": (0, 3), "b": (0, 3)}, "expect": "reject"})
     out += extra_templates()
+    out += random_layouts(random.Random(common.seed() * 7919 + 12), 40 if tier == "quick" else 400)
     return out
 
 
